@@ -156,8 +156,20 @@ class ChildrenList(list):
         :raises GenerationError: if the item had been provided with a parent \
             argument on its constructor and this operation is trying to \
             make its parent a different node.
+        :raises GenerationError: if the given item is the node that owns \
+            this list or one of its ancestors.
 
         '''
+        # A node can not be placed below itself
+        node = self._node_reference
+        while node is not None:
+            if node is item:
+                raise GenerationError(
+                    f"Item '{item.coloured_name(False)}' can't be added as "
+                    f"child of '{self._node_reference.coloured_name(False)}' "
+                    f"because it is that same node or one of its ancestors.")
+            node = node.parent
+
         if item.parent and not item.has_constructor_parent:
             raise GenerationError(
                 f"Item '{item.coloured_name(False)}' can't be added as child "
